@@ -4,7 +4,6 @@
 package main
 
 import (
-	"runtime"
 	"bufio"
 	"crypto/sha1"
 	"encoding/hex"
@@ -14,6 +13,7 @@ import (
 	"math/rand"
 	"os"
 	"os/exec"
+	"runtime"
 	"sort"
 	"strings"
 	"sync"
@@ -24,9 +24,9 @@ import (
 // "n:" decimal numbers, "s:" opaque strings (JSON etc.).
 type In []string
 
-func H(b []byte) string  { return "h:" + hex.EncodeToString(b) }
-func Nn(n int) string    { return fmt.Sprintf("n:%d", n) }
-func S(s string) string  { return "s:" + s }
+func H(b []byte) string { return "h:" + hex.EncodeToString(b) }
+func Nn(n int) string   { return fmt.Sprintf("n:%d", n) }
+func S(s string) string { return "s:" + s }
 func (in In) B(i int) []byte {
 	if i >= len(in) {
 		return nil
@@ -89,21 +89,21 @@ var units []*Unit
 func register(u *Unit) { units = append(units, u) }
 
 type T struct {
-	Prop  string
-	Tier  string
-	Seed  int64
-	R     *rand.Rand
-	M     *Model
-	U     *Unit
-	mu    sync.Mutex
-	Evals int
-	seen  map[[20]byte]struct{}
-	NonTr int
-	Dist  map[string]int
-	Samples  []interface{}
-	Findings []Finding
-	perUnit  map[string]int
-	unitEval map[string]int
+	Prop      string
+	Tier      string
+	Seed      int64
+	R         *rand.Rand
+	M         *Model
+	U         *Unit
+	mu        sync.Mutex
+	Evals     int
+	seen      map[[20]byte]struct{}
+	NonTr     int
+	Dist      map[string]int
+	Samples   []interface{}
+	Findings  []Finding
+	perUnit   map[string]int
+	unitEval  map[string]int
 	shrinking bool
 }
 
@@ -145,6 +145,11 @@ func (t *T) Do(in In, nontrivial bool) {
 		t.record(f, in)
 	}
 }
+
+// atExit: cleanups run when main ends normally (temporary directories of fixtures)
+var exitFuncs []func()
+
+func atExit(f func()) { exitFuncs = append(exitFuncs, f) }
 
 // journal: the case about to run, kept in <out>.cur.  A crash of the code under test outside the calling
 // goroutine (a finalizer, a worker) takes the process down; the driver then finds the input here.
@@ -249,10 +254,10 @@ func (t *T) shrink(f Finding, in In) Finding {
 // ---------------------------------------------------------------------------------------
 
 type Model struct {
-	mu  sync.Mutex
-	cmd *exec.Cmd
-	in  *bufio.Writer
-	out *bufio.Reader
+	mu    sync.Mutex
+	cmd   *exec.Cmd
+	in    *bufio.Writer
+	out   *bufio.Reader
 	Calls int
 }
 
@@ -391,6 +396,9 @@ func main() {
 			if u.Name == rf.Finding.Unit {
 				t.U = u
 				fs := t.safeCheck(rf.Finding.Input)
+				for _, f := range exitFuncs {
+					f()
+				}
 				fmt.Printf("replay unit=%s input=%v\n", u.Name, rf.Finding.Input.Pretty())
 				if len(fs) == 0 {
 					fmt.Println("result: no finding on the current tree (implementation, model and oracle agree)")
@@ -428,6 +436,9 @@ func main() {
 	if ran == 0 {
 		fmt.Fprintln(os.Stderr, "no units for property", *prop)
 		os.Exit(2)
+	}
+	for _, f := range exitFuncs {
+		f()
 	}
 	sort.Slice(t.Findings, func(i, j int) bool { return t.Findings[i].Kind > t.Findings[j].Kind })
 	res := Result{Prop: *prop, Tier: *tier, Seed: *seed, Evaluations: t.Evals, Distinct: t.NonTr, ModelCalls: m.Calls,
